@@ -151,6 +151,7 @@ type Case struct {
 	MaxSteps        int64            `json:"max_steps,omitempty"`
 	Life            string           `json:"life,omitempty"`
 	Damage          *Damage          `json:"damage,omitempty"`
+	Rot             bool             `json:"rot,omitempty"` // the program contains a bit-rot step
 	TableFaultsOnly bool             `json:"table_faults_only,omitempty"`
 	Slow            []int            `json:"slow,omitempty"` // clients scheduled only rarely (slow nodes)
 }
